@@ -528,6 +528,22 @@ func captureLog() (*logCapture, func()) {
 	return lc, func() { logger.SetOutput(os.Stderr) }
 }
 
+// twinBuilds makes two tasks begin with Build requests that a key made of "the numbers" would take for one: same
+// content and reference, candidate lists that differ in unpacked versus packed GSM 7-bit only (both say 0 in
+// ToInt()), or the same numbers under the other protocol. Each caller must get the answer to ITS request.
+func twinBuilds(c *core.Chooser, hists [][]hop) {
+	a, b := 0, 1+c.Intn(len(hists)-1)
+	t := genSMSText(c, famASCII, 75+c.Intn(80), nil2run) // 7-bit in one part, UCS-2 in two
+	ref := byte(c.Intn(256))
+	oa := hop{kind: 7, smpp: true, text: t, ref: ref, coding: 5}
+	ob := hop{kind: 7, smpp: true, text: t, ref: ref, coding: 6}
+	if c.Prob(1, 3) {
+		ob.coding = 7
+	}
+	hists[a] = append([]hop{oa}, hists[a]...)
+	hists[b] = append([]hop{ob}, hists[b]...)
+}
+
 // twinSplits makes two tasks begin with split requests that are different but easy to confuse: the reference of one
 // followed by its text reads like the reference of the other followed by ITS text (23 + "T…" / 2 + "3T…"), or they
 // differ in the reference only, or in the last character only. Whatever a library keys on its arguments (a cache, a
@@ -933,6 +949,29 @@ func execOp(r *core.Run, t *taskState, o hop) (live any, label string, panicked 
 					dcs = append(dcs, datacoding.CMPP_CODING_UCS2_NO_SIGN, datacoding.CMPPDataCoding(4))
 				}
 			}
+			if o.coding >= 5 {
+				// twin requests (see twinBuilds): 5 and 6 differ in one candidate only (unpacked / packed GSM 7-bit, whose
+				// wire values coincide in ToInt()), 7 is the CMPP request with the same numbers
+				switch o.coding {
+				case 5:
+					dcs = []datacoding.ProtocolDataCoding{datacoding.SMPP_CODING_GSM7_UNPACKED, datacoding.SMPP_CODING_UCS2}
+				case 6:
+					dcs = []datacoding.ProtocolDataCoding{datacoding.SMPP_CODING_GSM7_PACKED, datacoding.SMPP_CODING_UCS2}
+				default:
+					pr = protocol.CMPP
+					dcs = []datacoding.ProtocolDataCoding{datacoding.CMPP_CODING_ASCII, datacoding.CMPP_CODING_UCS2}
+				}
+				parts, coding, err := protocol.NewBatchDataCodingEncoder().Protocol(pr).Content(o.text, o.ref).DataCodings(dcs).Build(ctx)
+				if err != nil {
+					live = "build error"
+					return
+				}
+				out := make([][]byte, 0, len(parts)+1)
+				out = append(out, []byte(fmt.Sprintf("%s/%d", coding.String(), coding.ToInt())))
+				out = append(out, parts...)
+				live = out
+				return
+			}
 			if o.coding >= 3 {
 				// the two paths on which Build writes a log line: no candidate can encode and UCS-2 was not offered
 				// (an Info line, then the UCS-2 fallback), and a protocol without a fallback (Info line, Error line)
@@ -1072,7 +1111,11 @@ func runHistories(r *core.Run, prop string) {
 		hists[i] = genHistory(c, prop, i, maxOps)
 	}
 	if prop == "C13" && nTasks >= 2 && c.Prob(1, 3) {
-		twinSplits(c, hists)
+		if r.Cfg.Index%2 == 0 {
+			twinSplits(c, hists)
+		} else {
+			twinBuilds(c, hists)
+		}
 		r.Probe("twin_requests_in_flight")
 	}
 	for i := 0; i < nTasks; i++ {
@@ -1297,7 +1340,11 @@ func raceWorkload(seed uint64, idx uint64, cold bool) (mismatch string, tasks, o
 		for i, t := range ts {
 			hs[i] = t.ops
 		}
-		twinSplits(c, hs)
+		if idx%2 == 0 {
+			twinSplits(c, hs)
+		} else {
+			twinBuilds(c, hs)
+		}
 		for i := range ts {
 			ts[i] = newTaskState(trs[i], i, hs[i], simnet.Compact)
 		}
@@ -1329,7 +1376,7 @@ func raceWorkload(seed uint64, idx uint64, cold bool) (mismatch string, tasks, o
 	}
 	// seeded Gosched at a subset of the yield sites; no shared counter (an atomic would order the tasks)
 	gosched := map[string]bool{}
-	for _, site := range []string{"writer.new", "writer.release", "writer.op", "stringer.new", "stringer.release", "stringer.op", "ucs2pool.get", "ucs2pool.put", "batch.run", "split.part"} {
+	for _, site := range []string{"writer.new", "writer.release", "writer.op", "stringer.new", "stringer.release", "stringer.op", "ucs2pool.get", "ucs2pool.put", "batch.run", "split.part", "sync.lock", "sync.atomic", "sync.wait", "chan.op", "go.stmt", "go.entry"} {
 		gosched[site] = core.Mix(seed, site, idx)%2 == 0
 	}
 	verifhook.YieldFn = func(site string, key ...int) {
